@@ -8,7 +8,7 @@ from harness import core, py2lean, instantiate
 from harness.core import Outcome, f2b, b2f
 
 ID = "C06"
-LEAN_TARGETS = ["BeyondVerif.Props.C06", "BeyondVerif.Props.C06Iter"]
+LEAN_TARGETS = ["BeyondVerif.Props.C06", "BeyondVerif.Props.C06Iter", "BeyondVerif.Props.C06Conv", "BeyondVerif.Props.C06Adapt"]
 THEOREMS = [
     "BeyondVerif.C06.trees_orders_gammas",
     "BeyondVerif.C06.euler_order1",
@@ -46,6 +46,13 @@ THEOREMS = [
     "BeyondVerif.C06.copy_keeps_settings",
     "BeyondVerif.C06.butcher_names",
     "BeyondVerif.C06.copy_then_call",
+    "BeyondVerif.C06.out_independent_of_binding",
+    "BeyondVerif.C06.bind_uses_current_frame",
+    "BeyondVerif.C06.orbit_call_steps_from_current_view",
+    "BeyondVerif.C06.orbit_call_independent_of_previous_binding",
+    "BeyondVerif.C06.copy_drops_binding",
+    "BeyondVerif.C06.frame_change_does_not_rebind",
+    "BeyondVerif.C06.bind_unknown_frame",
     "BeyondVerif.C06.marchWith_exit",
     "BeyondVerif.C06.marchWith_consumes",
     "BeyondVerif.C06.marchWith_incr",
@@ -60,6 +67,38 @@ THEOREMS = [
     "BeyondVerif.C06.outputs_props_distinct",
     "BeyondVerif.C06.runReqs_own",
     "BeyondVerif.C06.sibling_requests_independent",
+    "BeyondVerif.C06.relative_stop_counts_from_start",
+    "BeyondVerif.C06.relative_target_counts_from_epoch",
+    # convergence (Props/C06Conv.lean on Lemmas/Gronwall, OneStep, Gravity)
+    "BeyondVerif.Gronwall.discrete_gronwall",
+    "BeyondVerif.Gronwall.one_step_global_error",
+    "BeyondVerif.OneStep.taylor1_remainder",
+    "BeyondVerif.OneStep.euler_local_error_ode",
+    "BeyondVerif.OneStep.rk4_step_lipschitz",
+    "BeyondVerif.Gravity.grav_lipschitz",
+    "BeyondVerif.Gravity.hasGradientAt_potential",
+    "BeyondVerif.C06.rkOnce_euler_coords",
+    "BeyondVerif.C06.rkOnce_rk4_coords",
+    "BeyondVerif.C06.accelCentral_coords",
+    "BeyondVerif.C06.euler_local_truncation",
+    "BeyondVerif.C06.euler_global_error_general",
+    "BeyondVerif.C06.euler_global_error",
+    "BeyondVerif.C06.euler_two_body_converges",
+    "BeyondVerif.C06.rk4_linear_system",
+    "BeyondVerif.C06.rkOnce_rk4_linear_system",
+    "BeyondVerif.C06.rk4_local_to_global",
+    "BeyondVerif.C06.rk4_global_error_partial",
+    "BeyondVerif.C06.rk4_converges",
+    "BeyondVerif.C06.rk4_linear_converges_order4",
+    "BeyondVerif.C06.accel_is_gradient",
+    "BeyondVerif.C06.energy_first_integral",
+    "BeyondVerif.C06.angular_momentum_first_integral",
+    "BeyondVerif.C06.circ_solves",
+    # the adaptive controller (Props/C06Adapt.lean)
+    "BeyondVerif.C06.usRound_close",
+    "BeyondVerif.C06.step_scale_contracts",
+    "BeyondVerif.C06.adaptive_terminates",
+    "BeyondVerif.C06.adaptive_terminates_of_order",
 ]
 LEVEL_TEXT = ("Lean theorems over R about the four Butcher tableaux, the per-body attraction, the step-size update and MAX_ITER translated from "
               "keplernum.py on every run: all rooted-tree order conditions (Euler 1; RK4 all 8 up to order 4; RKF54 and DOPRI54 all 17 up to order 5 for "
@@ -410,7 +449,62 @@ class _Cond:
         raise U("_iter expression " + ast.unparse(e)[:100])
 
 
-def translate_iter(tree, ephem_tree):
+def _int_expr(e, names):
+    """date / span arithmetic over Int microseconds: names, `+`, `-`, unary minus"""
+    U = py2lean.Untranslatable
+    txt = ast.unparse(e)
+    if txt in names:
+        return names[txt]
+    if isinstance(e, ast.BinOp) and isinstance(e.op, (ast.Add, ast.Sub)):
+        return f"({_int_expr(e.left, names)} {'+' if isinstance(e.op, ast.Add) else '-'} {_int_expr(e.right, names)})"
+    if isinstance(e, ast.UnaryOp) and isinstance(e.op, ast.USub):
+        return f"(-{_int_expr(e.operand, names)})"
+    raise U("request normalisation: expression " + txt[:80])
+
+
+def translate_request(base_tree):
+    """`NumericalPropagator.iter` / `.propagate` (base.py): what a relative `stop` (a timedelta) and a relative target are counted
+    from, and which start an absent `start` means.  The statements are located by their shape; any other shape is refused."""
+    U = py2lean.Untranslatable
+    cls = next((n for n in base_tree.body if isinstance(n, ast.ClassDef) and n.name == "NumericalPropagator"), None)
+    if cls is None:
+        raise U("base.py: class NumericalPropagator")
+    fns = {f.name: f for f in cls.body if isinstance(f, ast.FunctionDef)}
+    if "iter" not in fns or "propagate" not in fns:
+        raise U("NumericalPropagator.iter / propagate")
+    it, pr = fns["iter"], fns["propagate"]
+    # iter: `if "dates" not in kwargs:` block
+    blk = [s for s in it.body if isinstance(s, ast.If) and ast.unparse(s.test) == "'dates' not in kwargs"]
+    if len(blk) != 1:
+        raise U("NumericalPropagator.iter: the `dates not in kwargs` block")
+    body = blk[0].body
+    st = [s for s in body if isinstance(s, ast.Assign) and ast.unparse(s.targets[0]) == "start"]
+    if [ast.unparse(s.value) for s in st] != ["kwargs.setdefault('start', self.orbit.date)", "self.orbit.date if start is None else start"]:
+        raise U("NumericalPropagator.iter: defaulting of `start`")
+    rel = [s for s in body if isinstance(s, ast.If) and ast.unparse(s.test) == "isinstance(kwargs['stop'], timedelta)"]
+    if len(rel) != 1 or len(rel[0].body) != 1 or rel[0].orelse or not isinstance(rel[0].body[0], ast.Assign) \
+            or ast.unparse(rel[0].body[0].targets[0]) != "kwargs['stop']":
+        raise U("NumericalPropagator.iter: relative `stop`")
+    names = {"start": "start", "kwargs['stop']": "delta", "self.orbit.date": "epoch"}
+    relstop = _int_expr(rel[0].body[0].value, names)
+    fwd = [s for s in it.body if isinstance(s, ast.For)]
+    if len(fwd) != 1 or ast.unparse(fwd[0].iter) != "self._iter(**kwargs)" or ast.unparse(fwd[0].body[0]) != "yield orb":
+        raise U("NumericalPropagator.iter: forwarding to _iter")
+    # propagate: `if isinstance(date, timedelta): date = <expr>` then `return next(self.iter(start=date, stop=date))`
+    if len(pr.body) != 2 or not isinstance(pr.body[0], ast.If) or ast.unparse(pr.body[0].test) != "isinstance(date, timedelta)" \
+            or len(pr.body[0].body) != 1 or ast.unparse(pr.body[0].body[0].targets[0]) != "date" \
+            or ast.unparse(pr.body[1]) != "return next(self.iter(start=date, stop=date))":
+        raise U("NumericalPropagator.propagate")
+    reltarget = _int_expr(pr.body[0].body[0].value, {"date": "delta", "self.orbit.date": "epoch"})
+    return ("/-- `kwargs[\"stop\"] = " + ast.unparse(rel[0].body[0].value) + "` — `NumericalPropagator.iter`, `stop` given as a timedelta (`delta`); "
+            "`epoch` = `self.orbit.date` -/\n"
+            f"def relStop (epoch start delta : Int) : Int := {relstop}\n\n"
+            "/-- `date = " + ast.unparse(pr.body[0].body[0].value) + "` — `NumericalPropagator.propagate`, target given as a timedelta; the request is then "
+            "`iter(start=date, stop=date)` -/\n"
+            f"def relTarget (epoch delta : Int) : Int := {reltarget}\n\n")
+
+
+def translate_iter(tree, ephem_tree, base_tree=None):
     """the padding rule of `KeplerNum._iter`: loop condition of the march, `interp`, padding count of the positioning phase,
     the `order` argument of the two `Ephem(...)` calls; `Ephem.DEFAULT_ORDER`"""
     U = py2lean.Untranslatable
@@ -505,6 +599,7 @@ def translate_iter(tree, ephem_tree):
             f"def pointPropId (recv next k : Nat) : Nat := {ptxt}\n\n"
             "/-- number of propagator objects created for an output of `n` points -/\n"
             f"def propsAllocated (n : Nat) : Nat := {atxt}\n\n"
+            + (translate_request(base_tree) if base_tree is not None else "") +
             "end BeyondVerif.Generated.KNIterSrc\n")
 
 
@@ -513,7 +608,8 @@ def extract(ctx):
     btext, values = translate_butcher(tree)
     body = "namespace KN\n\n" + PRELUDE + "\n" + btext + translate_accel(tree) + "\n" + translate_step_scale(tree) + "\nend KN\n"
     ch = py2lean.instantiate(core.LEAN, "KeplerNum", body, "beyond/propagators/keplernum.py")
-    itext = translate_iter(tree, ast.parse(open(os.path.join(core.REPO, "beyond", "orbits", "ephem.py")).read()))
+    itext = translate_iter(tree, ast.parse(open(os.path.join(core.REPO, "beyond", "orbits", "ephem.py")).read()),
+                           ast.parse(open(os.path.join(core.REPO, "beyond", "propagators", "base.py")).read()))
     if core.write_if_changed(os.path.join(core.LEAN, "BeyondVerif", "Generated", "KNIterSrc.lean"), itext):
         ch.append("Generated/KNIterSrc.lean")
     ch += instantiate.main()
@@ -780,11 +876,28 @@ class _FixedBody:
         self.pos = list(pos)
 
     def propagate(self, date):
-        from beyond.orbits import StateVector
-        return StateVector(self.pos + [0.0, 0.0, 0.0], date, "cartesian", "EME2000")
+        # `_accel` does `orb_body.frame = orb.frame` and reads `orb_body[:3]`: the body is at rest IN THE FRAME OF THE ORBIT, whatever
+        # that frame is (the assignment is a plain attribute here, no conversion)
+        import numpy as np
+        return np.array(self.pos + [0.0, 0.0, 0.0], float).view(_FrameFree)
 
     def tokens(self):
         return [f2b(float(getattr(self, "μ")))] + [f2b(float(v)) for v in self.pos + [0.0, 0.0, 0.0]]
+
+
+class _FrameFree(__import__("numpy").ndarray):
+    """six numbers with a freely assignable `frame` attribute"""
+
+
+HIST_FRAMES = ["EME2000", "TOD", "MOD"]
+
+
+def views_of(y):
+    """the caller's orbit (cartesian, EME2000, at `epoch()`) as cartesian state in every candidate frame: what
+    `orbit.copy(form="cartesian", frame=f)` returns (the conversion is C02's; here it is an input of the model)"""
+    from beyond.orbits import Orbit
+    orb = Orbit(list(y), epoch(), "cartesian", "EME2000", None)
+    return [(f, [float(v) for v in orb.copy(form="cartesian", frame=f)]) for f in HIST_FRAMES]
 
 
 def gen_history(rng, mu):
@@ -797,13 +910,29 @@ def gen_history(rng, mu):
         return _FixedBody("far", m_, [d_ * x / n for x in u])
     central = _FixedBody("central", mu, [0.0, 0.0, 0.0])
     name = lambda: rng.choice(METHODS + METHODS + ["RK4", "Dopri54", "rk5", "EULER"])
-    init = {"method": name(), "step": q(rng.uniform(5, 120)), "tol": 10 ** rng.uniform(-8, -2), "bodies": [central] + ([far()] if rng.random() < 0.3 else [])}
+    init = {"method": name(), "step": q(rng.uniform(5, 120)), "tol": 10 ** rng.uniform(-8, -2), "bodies": [central] + ([far()] if rng.random() < 0.3 else []),
+            "frame": rng.choice(["EME2000", "EME2000", "TOD", "MOD"])}
     nb = len(init["bodies"])
     step = init["step"]
     ops = []
     o = gen_orbit(rng, mu)
     for _ in range(rng.randint(3, 9)):
         r = rng.random()
+        if ops and rng.random() < 0.35:
+            # the `frame` attribute and the bound orbit
+            r2 = rng.random()
+            if r2 < 0.25:
+                ops.append({"op": "sf", "f": rng.choice(HIST_FRAMES + ["TOD", "NOPE"])})
+            elif r2 < 0.6:
+                if rng.random() < 0.6:
+                    o = gen_orbit(rng, mu)
+                ops.append({"op": "bd", "y": o["x0"], "views": views_of(o["x0"])})
+            elif r2 < 0.85:
+                from datetime import timedelta as _td
+                ops.append({"op": "sd", "h": _td(seconds=step * rng.choice([1, 1, -1, 0.5])).total_seconds()})
+            else:
+                ops.append({"op": "ro"})
+            continue
         if r < 0.45 or not ops:
             h = step * rng.choice([1, 1, -1, 0.5, -0.25])
             from datetime import timedelta as _td
@@ -831,13 +960,16 @@ def gen_history(rng, mu):
             ops.append({"op": "db"})
         else:
             ops.append({"op": "cp"})
-    if ops[-1]["op"] not in ("mk", "rb"):
+    if ops[-1]["op"] in ("sf", "bd"):
+        ops.append({"op": "bd", "y": o["x0"], "views": views_of(o["x0"])})
+        ops.append({"op": "sd", "h": step})
+    if ops[-1]["op"] not in ("mk", "rb", "sd", "ro"):
         ops.append({"op": "mk", "h": step, "y": o["x0"], "rv": (math.sqrt(sum(v * v for v in o["x0"][:3])), math.sqrt(sum(v * v for v in o["x0"][3:])))})
     return init, ops
 
 
 def _seq_request(init, ops):
-    toks = ["c06seq", init["method"], f2b(init["step"]), f2b(init["tol"]), str(len(init["bodies"]))]
+    toks = ["c06seq", init["method"], init.get("frame", "EME2000"), f2b(init["step"]), f2b(init["tol"]), str(len(init["bodies"]))]
     for b in init["bodies"]:
         toks += b.tokens()
     for op in ops:
@@ -854,6 +986,12 @@ def _seq_request(init, ops):
             toks += ["sb", str(len(op["bodies"]))] + [t for b in op["bodies"] for t in b.tokens()]
         elif k == "ab":
             toks += ["ab"] + op["body"].tokens()
+        elif k == "sf":
+            toks += ["sf", op["f"]]
+        elif k == "bd":
+            toks += ["bd", str(len(op["views"]))] + [t for f, v in op["views"] for t in [f] + [f2b(x) for x in v]]
+        elif k == "sd":
+            toks += ["sd", f2b(op["h"])]
         else:
             toks.append(k)
     return " ".join(toks)
@@ -866,8 +1004,26 @@ def _real_call(prop, op):
     try:
         if op["op"] == "rb":
             return _tab_tokens(prop.butcher)
-        prop.orbit = Orbit(list(op["y"]), epoch(), "cartesian", "EME2000", None)
-        hs, y1 = prop._make_step(prop.orbit, timedelta(seconds=op["h"]))
+        if op["op"] == "ro":
+            b = prop.orbit
+            return "none" if b is None else b.frame.name + " " + " ".join(f2b(float(v)) for v in b)
+        if op["op"] == "sd":
+            hs, y1 = prop._make_step(prop.orbit, timedelta(seconds=op["h"]))
+            return [hs.total_seconds()] + [float(v) for v in y1.base]
+        # `mk`: `_make_step(orb, h)` on a state given by the caller, as it is (no frame conversion), leaving the object's own
+        # binding as it was — `_make_step` reads the maneuvers of the bound orbit, so one is bound for the duration of the call
+        keep, had = prop.frame, prop.__dict__.get("_orbit", None)
+        prop.frame = "EME2000"
+        try:
+            prop.orbit = Orbit(list(op["y"]), epoch(), "cartesian", "EME2000", None)
+            prop.frame = keep
+            hs, y1 = prop._make_step(prop.orbit, timedelta(seconds=op["h"]))
+        finally:
+            prop.frame = keep
+            if had is None:
+                prop.__dict__.pop("_orbit", None)
+            else:
+                prop._orbit = had
         return [hs.total_seconds()] + [float(v) for v in y1.base]
     except KeyError:
         return "unknown-name"
@@ -875,6 +1031,8 @@ def _real_call(prop, op):
         return "runtime-error"
     except IndexError:
         return "index-error"
+    except AttributeError:
+        return "attribute-error"
 
 
 def _step_agree(real, model, errs, op, tol, mu):
@@ -913,18 +1071,36 @@ def corr_histories(ctx, out, mu):
     replies = core.Driver().run(reqs)
     for req, (init, ops), rep in zip(reqs, hist, replies):
         model = rep.split(" ; ")
-        desc = {"initial": {"method": init["method"], "step": init["step"], "tol": init["tol"], "bodies": [[getattr(b, "μ")] + b.pos for b in init["bodies"]]},
+        desc = {"initial": {"method": init["method"], "step": init["step"], "tol": init["tol"], "frame": init["frame"],
+                            "bodies": [[getattr(b, "μ")] + b.pos for b in init["bodies"]]},
                 "ops": [{k: ([getattr(x, "μ")] + x.pos if isinstance(x, _FixedBody) else [[getattr(b, "μ")] + b.pos for b in x] if k == "bodies" else x)
                          for k, x in op.items() if k != "rv"} for op in ops]}
         if len(model) != len(ops):
             out.fail("c06-seq", "reply length of a history", desc, observed=len(ops), expected=rep[:200])
             continue
-        prop = KeplerNum(timedelta(seconds=init["step"]), list(init["bodies"]), method=init["method"], tol=init["tol"])
+        prop = KeplerNum(timedelta(seconds=init["step"]), list(init["bodies"]), method=init["method"], tol=init["tol"], frame=init["frame"])
         since = []          # assignments since the previous observable call
         ncall = 0
+        last_bind = None    # (EME2000 state of the orbit of the last successful binding, frame at that moment)
         for k, (op, mrep) in enumerate(zip(ops, model)):
             kind = op["op"]
-            if kind in ("mk", "rb"):
+            if kind == "ro":
+                real = _real_call(prop, op)
+                ncall += 1
+                out.count(key=(req[:60], k, len(req)), nontrivial=bool(since), kind="history-ro", after="+".join(sorted(set(since))) or "call",
+                          bound=real != "none")
+                if real != mrep:
+                    out.fail("c06-seq-bound-orbit", f"history on one object: `prop.orbit` (frame name, stored state) differs from the model at operation {k}",
+                             dict(desc, at=k), observed=real[:80], expected=mrep[:80])
+                    break
+                continue
+            if kind == "sd":
+                b = prop.orbit
+                if b is not None:
+                    op = dict(op, y=[float(v) for v in b], rv=(math.sqrt(sum(float(v) ** 2 for v in b[:3])), math.sqrt(sum(float(v) ** 2 for v in b[3:]))))
+                else:
+                    op = dict(op, rv=(1.0, 1.0))
+            if kind in ("mk", "rb", "sd"):
                 real = _real_call(prop, op)
                 ncall += 1
                 out.count(key=(req[:60], k, len(req)), nontrivial=ncall > 1 or bool(since), kind="history-" + kind,
@@ -937,8 +1113,13 @@ def corr_histories(ctx, out, mu):
                     out.tally("step-borderline-skipped")
                 elif why is not None:
                     # what does a FRESH real object carrying the same attribute values return?
-                    f = KeplerNum(prop.step, list(prop.bodies), tol=prop.tol)
+                    f = KeplerNum(prop.step, list(prop.bodies), tol=prop.tol, frame=prop.frame)
                     f.method = prop.method
+                    if kind == "sd" and last_bind is not None:
+                        from beyond.orbits import Orbit
+                        f.frame = last_bind[1]
+                        f.orbit = Orbit(list(last_bind[0]), epoch(), "cartesian", "EME2000", None)
+                        f.frame = prop.frame
                     fresh = _real_call(f, op)
                     stale = (fresh != real) if (isinstance(fresh, str) or isinstance(real, str)) else any(
                         not core.close(a, b, rtol=1e-12, atol=1e-9) for a, b in zip(fresh, real))
@@ -950,10 +1131,21 @@ def corr_histories(ctx, out, mu):
                     break
                 since = []
                 continue
-            since.append({"sm": "method", "ss": "step", "st": "tol", "sb": "bodies", "ab": "bodies-append", "db": "bodies-pop", "cp": "copy"}[kind])
+            since.append({"sm": "method", "ss": "step", "st": "tol", "sb": "bodies", "ab": "bodies-append", "db": "bodies-pop", "cp": "copy",
+                          "sf": "frame", "bd": "bind"}[kind])
             real = "q"
             try:
-                if kind == "sm":
+                if kind == "sf":
+                    prop.frame = op["f"]
+                elif kind == "bd":
+                    from beyond.orbits import Orbit
+                    from beyond.errors import UnknownFrameError
+                    try:
+                        prop.orbit = Orbit(list(op["y"]), epoch(), "cartesian", "EME2000", None)
+                        last_bind = (list(op["y"]), prop.frame)
+                    except UnknownFrameError:
+                        real = "unknown-frame"
+                elif kind == "sm":
                     prop.method = op["m"]
                 elif kind == "ss":
                     prop.step = timedelta(seconds=op["h"])
@@ -1036,6 +1228,7 @@ def corr_iter(ctx, out, mu):
     rng = ctx.rng
     td = lambda x: timedelta(seconds=x)
     cases = []
+    norm_cases = []
     for k in range(ctx.n(160, 3000)):
         o = gen_orbit(rng, mu)
         h = q(rng.uniform(5, 120))
@@ -1046,24 +1239,34 @@ def corr_iter(ctx, out, mu):
         span, outs = plan["span"], plan["out_step"]
         orb = make(o["x0"], h, m, tol=tol)
         d0 = orb.date
+        ureq = None      # the request as the caller wrote it (start given?, start, stop relative?, stop), where `stop` is a timedelta
         if form.startswith("step-"):
             call = lambda ob: list(ob.iter(stop=td(span), step=td(outs)))
+            ureq = ("c06norm", 0, 0.0, 1, span)
         elif form == "ephem":
             call = lambda ob: list(ob.ephem(stop=td(span), step=td(outs)))
+            ureq = ("c06norm", 0, 0.0, 1, span)
         elif form in ("dates-list", "dates-before-epoch", "dates-across-epoch"):
             call = lambda ob: list(ob.iter(dates=[d0 + td(x) for x in plan["offsets"]]))
         elif form == "dates-range":
             call = lambda ob: list(ob.iter(dates=Date.range(d0, d0 + td(span), td(outs), inclusive=True)))
         elif form == "backward-step":
             call = lambda ob: list(ob.iter(stop=-td(span), step=td(outs)))
+            ureq = ("c06norm", 0, 0.0, 1, -span)
         elif form == "backward-explicit":
             call = lambda ob: list(ob.iter(start=d0, stop=d0 - td(span), step=-td(outs)))
+            ureq = ("c06norm", 1, 0.0, 0, -span)
         elif form == "start-offset":
             call = lambda ob: list(ob.iter(start=d0 + td(plan["start"]), stop=d0 + td(plan["start"] + span), step=td(outs)))
+            ureq = ("c06norm", 1, plan["start"], 0, plan["start"] + span)
+        elif form == "start-offset-rel":
+            call = lambda ob: list(ob.iter(start=d0 + td(plan["start"]), stop=td(span), step=td(outs)))
+            ureq = ("c06norm", 1, plan["start"], 1, span)
         elif form == "propagate":
             T = q(rng.uniform(-12, 12) * h) if rng.random() < 0.8 else h * rng.randint(-9, 9)
             plan["T"] = T
             call = lambda ob: [ob.propagate(td(T))]
+            ureq = ("c06target", T)
         elif form == "native-step":
             call = lambda ob: list(ob.iter(stop=td(span)))
         elif form == "native-backward":
@@ -1101,6 +1304,17 @@ def corr_iter(ctx, out, mu):
         req = " ".join(["c06iter", "0", str(_us(start, e0)), str(_us(stop, e0)), str(int(dates is not None)), str(int(sg)), str(int(ls))]
                        + [str(int(round(s_.total_seconds() * 1e6))) for s_ in steps])
         cases.append((req, inp, e0, ephems, len(steps), form, m))
+        if ureq is not None:
+            us = lambda x: str(int(round(x * 1e6)))
+            nreq = (" ".join(["c06norm", "0", str(ureq[1]), us(ureq[2]), str(ureq[3]), us(ureq[4])]) if ureq[0] == "c06norm"
+                    else " ".join(["c06target", "0", us(ureq[1])]))
+            norm_cases.append((nreq, inp, f"{_us(start, e0)} {_us(stop, e0)}", form))
+    nrep = core.Driver().run([c[0] for c in norm_cases])
+    for (nreq, inp, real, form), rep in zip(norm_cases, nrep):
+        out.count(key=nreq, kind="request-normalisation-" + form)
+        if rep != real:
+            out.fail("c06-request-" + form, "the (start, stop) `KeplerNum._iter` receives for a request differ from the model of NumericalPropagator.iter / propagate "
+                     "(relative stop counted from the start, relative target from the epoch)", inp, observed=real, expected=rep)
     replies = core.Driver().run([c[0] for c in cases])
     for (req, inp, e0, ephems, ncalls, form, m), rep in zip(cases, replies):
         obs = [(sorted(_us(d, e0) for d in ds), order) for ds, order, _ in ephems]
@@ -1664,7 +1878,7 @@ def check_chained(out, o, h, T, mu, method, tol):
 # ---------------------------------------------------------------- short spans and output grids (the padding rule of _iter)
 
 SHORT_FORMS = ["step-smaller", "step-equal", "step-larger", "step-incommensurate", "dates-list", "dates-range", "backward-step",
-               "backward-explicit", "dates-before-epoch", "dates-across-epoch", "start-offset", "ephem"]
+               "backward-explicit", "dates-before-epoch", "dates-across-epoch", "start-offset", "ephem", "start-offset-rel"]
 
 
 def plan_short(rng, o, h, method, tol=1e-3, form=None):
@@ -1687,7 +1901,7 @@ def plan_short(rng, o, h, method, tol=1e-3, form=None):
         elif form == "dates-across-epoch":
             offs = [x - q(span * rng.uniform(0.2, 0.8)) for x in offs]
         plan["offsets"] = offs            # in the drawn (arbitrary) order
-    if form == "start-offset":
+    if form in ("start-offset", "start-offset-rel"):
         plan["start"] = q(h * rng.uniform(-3, 3))
     return plan
 
@@ -1723,6 +1937,12 @@ def run_short(out, o, mu, plan):
     elif form == "start-offset":
         s0 = d0 + td(plan["start"])
         pts = list(orb.iter(start=s0, stop=s0 + td(span), step=td(outs)))
+        want_dates = [s0 + td(outs) * i for i in range(int(math.floor(span / outs + 1e-9)) + 1)]
+        same_grid = plan["start"] == 0
+    elif form == "start-offset-rel":
+        # an explicit start with a RELATIVE stop (a timedelta): the span is counted from the start
+        s0 = d0 + td(plan["start"])
+        pts = list(orb.iter(start=s0, stop=td(span), step=td(outs)))
         want_dates = [s0 + td(outs) * i for i in range(int(math.floor(span / outs + 1e-9)) + 1)]
         same_grid = plan["start"] == 0
     else:
@@ -1771,7 +1991,7 @@ def run_short(out, o, mu, plan):
 
 # ---------------------------------------------------------------- one propagator object re-used with changed attributes
 
-REUSE_ATTRS = ["method", "step", "tol", "bodies", "bodies-inplace", "frame", "maneuvers", "orbit"]
+REUSE_ATTRS = ["method", "step", "tol", "bodies", "bodies-inplace", "frame", "maneuvers", "orbit", "state-inplace"]
 
 
 def plan_reuse(rng, o, first=None):
@@ -1801,18 +2021,32 @@ def plan_reuse(rng, o, first=None):
                     sets["maneuvers"] = [] if cfg["maneuvers"] else [{"at": q(cfg["step"] * rng.uniform(0.5, 3)), "dv": [rng.uniform(-5, 5) for _ in range(3)]}]
                 elif a == "orbit":
                     sets["orbit"] = 1 - legs[-1]["orbit"]
+                elif a == "state-inplace":
+                    # the calling orbit object itself is modified in place between two calls (a hand-made velocity increment)
+                    sets["state-inplace"] = [rng.uniform(-2, 2) for _ in range(3)]
         for a, v in sets.items():
             if a == "bodies-inplace":
                 cfg["bodies"] = cfg["bodies"] + ["Moon"] if v == "append-Moon" else [b for b in cfg["bodies"] if b != "Moon"]
-            elif a != "orbit":
+            elif a not in ("orbit", "state-inplace"):
                 cfg[a] = v
         n = rng.uniform(1, 25) if "Moon" not in cfg["bodies"] else rng.uniform(1, 6)
         T = q(math.copysign(cfg["step"] * n, rng.choice([1, 1, -1])))
         call = rng.choice(["propagate", "propagate", "iter-step", "iter-dates"])
-        legs.append({"set": sets, "call": call, "T": T, "out_step": q(abs(T) / rng.choice([1.0, 2.5, 4.0])) or 1e-3,
+        outs_ = q(abs(T) / rng.choice([1.0, 2.5, 4.0])) or 1e-3
+        if ("orbit" in sets or "state-inplace" in sets) and legs and rng.random() < 0.7:
+            # the SAME request (same dates) for the other satellite
+            T, call, outs_ = legs[-1]["T"], legs[-1]["call"], legs[-1]["out_step"]
+        legs.append({"set": sets, "call": call, "T": T, "out_step": outs_,
                      "orbit": sets.get("orbit", legs[-1]["orbit"] if legs else 0), "cfg": dict(cfg)})
     c0 = dict(legs[0]["cfg"])
-    return {"initial": c0, "legs": legs}
+    # the second orbit object sharing the propagator object: half of the time ANOTHER satellite (same epoch, other state) — one
+    # propagator object serving several orbits is the constellation use; anything the object keeps from the previous call
+    # (a tabulation, a stage derivative, a bound state) then belongs to the wrong satellite
+    ob = None
+    if rng.random() < 0.5 or first == "orbit":
+        mu_ = float(earth().µ)
+        ob = gen_orbit(rng, mu_)
+    return {"initial": c0, "legs": legs, "orbit_b": ob}
 
 
 def _bodies(names):
@@ -1848,12 +2082,13 @@ def run_reuse(out, o, mu, plan):
     c0 = plan["initial"]
     prop = KeplerNum(timedelta(seconds=c0["step"]), _bodies(c0["bodies"]), method=c0["method"], frame=c0["frame"], tol=c0["tol"])
     # two orbit objects may share the propagator object: the same state at the same date (so that the reference is the same)
-    orbs = [Orbit(list(o["x0"]), epoch(), "cartesian", "EME2000", prop) for _ in range(2)]
+    os_ = [dict(o), dict(plan.get("orbit_b") or o)]
+    orbs = [Orbit(list(oo["x0"]), epoch(), "cartesian", "EME2000", prop) for oo in os_]
 
-    def fresh(cfg, override=None):
+    def fresh(cfg, override=None, which=0):
         c = dict(cfg)
         c.update(override or {})
-        f = Orbit(list(o["x0"]), epoch(), "cartesian", "EME2000",
+        f = Orbit(list(os_[which]["x0"]), epoch(), "cartesian", "EME2000",
                   KeplerNum(timedelta(seconds=c["step"]), _bodies(c["bodies"]), method=c["method"], frame=c["frame"], tol=c["tol"]))
         f.maneuvers = _mans(f, c["maneuvers"])
         return f
@@ -1886,9 +2121,17 @@ def run_reuse(out, o, mu, plan):
                 changed[a] = prev[a]
         prev = dict(cfg)
         orb = orbs[leg["orbit"]]
+        w = leg["orbit"]
+        x0_before = None
+        if "state-inplace" in leg["set"]:
+            dv = leg["set"]["state-inplace"]
+            x0_before = list(os_[w]["x0"])
+            orb[3:] = [float(orb[3 + i_]) + dv[i_] for i_ in range(3)]          # in place, on the caller's object
+            os_[w]["x0"] = list(os_[w]["x0"][:3]) + [os_[w]["x0"][3 + i_] + dv[i_] for i_ in range(3)]
+        oo = os_[w]
         inp = case_inp(o, cfg["step"], leg["T"], method=cfg["method"], tol=cfg["tol"], plan=plan, leg=k)
         got = _reuse_call(orb, leg)
-        want = _reuse_call(fresh(cfg), leg)
+        want = _reuse_call(fresh(cfg, which=w), leg)
         out.count(key=("reuse", k, repr(leg["set"]), cfg["method"], cfg["step"], leg["T"], o["rp"]), nontrivial=k > 0, kind="reuse-" + leg["call"],
                   changed="+".join(sorted(leg["set"])) or "nothing", method=cfg["method"])
         bad = None
@@ -1908,12 +2151,31 @@ def run_reuse(out, o, mu, plan):
             stale = []
             for a, old in changed.items():
                 try:
-                    alt = _reuse_call(fresh(cfg, {a: old}), leg)
+                    alt = _reuse_call(fresh(cfg, {a: old}, which=w), leg)
                     if len(alt) == len(got) and all(float(np.linalg.norm(x[1][:3] - y[1][:3])) <= 1e-6 for x, y in zip(alt, got)):
                         stale.append(a)
                 except Exception:
                     pass
             fam = ("reuse-stale-" + "+".join(sorted(stale))) if stale else ("reuse-differs-after-set-" + ("+".join(sorted(changed)) or "nothing"))
+            if not stale and x0_before is not None:
+                # does the propagator still integrate from the state the caller's orbit had BEFORE it was modified in place?
+                try:
+                    keep = os_[w]["x0"]
+                    os_[w]["x0"] = x0_before
+                    old_ = _reuse_call(fresh(cfg, which=w), leg)
+                    os_[w]["x0"] = keep
+                    if len(old_) == len(got) and all(float(np.linalg.norm(x[1][:3] - y[1][:3])) <= 1e-6 for x, y in zip(old_, got)):
+                        fam = "reuse-stale-bound-orbit-state"
+                except Exception:
+                    os_[w]["x0"] = keep
+            if not stale and plan.get("orbit_b") and k > 0 and fam.startswith("reuse-differs"):
+                # does the shared object answer for the OTHER satellite?
+                try:
+                    other = _reuse_call(fresh(cfg, which=1 - w), leg)
+                    if len(other) == len(got) and all(float(np.linalg.norm(x[1][:3] - y[1][:3])) <= 1e-6 for x, y in zip(other, got)):
+                        fam = "reuse-shared-propagator-other-orbit"
+                except Exception:
+                    pass
             out.fail(fam, "a KeplerNum object whose public attributes were changed between two calls does not return what a fresh propagator configured with the "
                           "current values returns (" + bad[0] + ")" + (": it still integrates with the former " + ", ".join(stale) if stale else ""),
                      inp, observed=bad[1], expected=bad[2])
@@ -1921,13 +2183,13 @@ def run_reuse(out, o, mu, plan):
         # the result is the two-body solution within the accuracy of the CURRENT configuration
         if cfg["bodies"] == ["Earth"] and not cfg["maneuvers"] and cfg["method"] != "euler" and cfg["frame"] == "EME2000":
             h, T = cfg["step"], leg["T"]
-            nh, vmax = o["n_p"] * h, math.sqrt(mu * (1 + o["e"]) / o["rp"])
+            nh, vmax = oo["n_p"] * h, math.sqrt(mu * (1 + oo["e"]) / oo["rp"])
             for d, a in got:
                 dt = (d - orb.date).total_seconds()
-                nT = o["n_p"] * abs(dt)
-                acc = (0.5 * o["rp"] * nh ** 4 * (1 + nT) ** 2) if cfg["method"] == "rk4" else 10 * (abs(dt) / h + 16) * cfg["tol"] * (1 + nT)
-                err = float(np.linalg.norm(a[:3] - kepler_ref(o["x0"], dt, mu)[:3]))
-                lim = 0.012 + acc + interp_tol(o, h, vmax)
+                nT = oo["n_p"] * abs(dt)
+                acc = (0.5 * oo["rp"] * nh ** 4 * (1 + nT) ** 2) if cfg["method"] == "rk4" else 10 * (abs(dt) / h + 16) * cfg["tol"] * (1 + nT)
+                err = float(np.linalg.norm(a[:3] - kepler_ref(oo["x0"], dt, mu)[:3]))
+                lim = 0.012 + acc + interp_tol(oo, h, vmax)
                 if not err <= lim:
                     out.fail("reuse-error-" + cfg["method"], "after its attributes were changed, the propagator's result is farther from the analytical solution than the "
                              "accuracy of the configuration now set", dict(inp, date_offset=dt), observed=err, expected=lim)
@@ -1995,7 +2257,7 @@ def oracle(ctx, widened):
             ps_ = plan_siblings(rng, o, mode=SIB_MODES[(k // 3) % len(SIB_MODES)])
             run("siblings", dict(case_inp(o, ps_["step"], 0.0), plan=ps_), run_siblings, out, o, mu, ps_)
         if k % 2 == 0:
-            rp_ = plan_reuse(rng, o, first=REUSE_ATTRS[(k // 2) % len(REUSE_ATTRS)] if k % 4 == 0 else None)
+            rp_ = plan_reuse(rng, o, first=REUSE_ATTRS[(k // 4) % len(REUSE_ATTRS)] if k % 4 == 0 else None)
             run("reuse", dict(case_inp(o, rp_["initial"]["step"], 0.0), plan=rp_), run_reuse, out, o, mu, rp_)
         else:
             m2 = METHODS[1 + (k // 2) % 3]
@@ -2035,13 +2297,20 @@ def replay_history(out, i):
     from beyond.propagators.keplernum import KeplerNum
     mk = lambda b: _FixedBody("b", b[0], b[1:4])
     init = i["initial"]
-    prop = KeplerNum(timedelta(seconds=init["step"]), [mk(b) for b in init["bodies"]], method=init["method"], tol=init["tol"])
+    prop = KeplerNum(timedelta(seconds=init["step"]), [mk(b) for b in init["bodies"]], method=init["method"], tol=init["tol"],
+                     frame=init.get("frame", "EME2000"))
+    last_bind = None
     for k, op in enumerate(i["ops"]):
         kind = op["op"]
-        if kind in ("mk", "rb"):
+        if kind in ("mk", "rb", "sd"):
             real = _real_call(prop, op)
-            fr = KeplerNum(prop.step, list(prop.bodies), tol=prop.tol)
+            fr = KeplerNum(prop.step, list(prop.bodies), tol=prop.tol, frame=prop.frame)
             fr.method = prop.method
+            if kind == "sd" and last_bind is not None:
+                from beyond.orbits import Orbit
+                fr.frame = last_bind[1]
+                fr.orbit = Orbit(list(last_bind[0]), epoch(), "cartesian", "EME2000", None)
+                fr.frame = prop.frame
             fresh = _real_call(fr, op)
             stale = (fresh != real) if (isinstance(fresh, str) or isinstance(real, str)) else any(
                 not core.close(a, b, rtol=1e-12, atol=1e-9) for a, b in zip(fresh, real))
@@ -2063,6 +2332,15 @@ def replay_history(out, i):
             prop.bodies.pop()
         elif kind == "cp":
             prop = prop.copy()
+        elif kind == "sf":
+            prop.frame = op["f"]
+        elif kind == "bd":
+            from beyond.orbits import Orbit
+            try:
+                prop.orbit = Orbit(list(op["y"]), epoch(), "cartesian", "EME2000", None)
+                last_bind = (list(op["y"]), prop.frame)
+            except Exception:
+                pass
     return out
 
 
